@@ -231,6 +231,12 @@ func (wd *world) exec(rq Req) (status int, nonEmpty bool, leaks []leak) {
 		for _, e := range logEntries(resp.Body) {
 			for _, h := range wd.reg.scan(e.text) {
 				attributed[h.class] = true
+				if h.class == "dsn-password" && inConnURL.MatchString(h.before) {
+					// whichever logger wrote it (REST, DB, TABLES, ...): the
+					// connection string of the DSN, password included
+					add(fmt.Sprintf("%s leaks %s (%s) inside a connection URL", rq.Route, h.class, h.form), h)
+					continue
+				}
 				add(fmt.Sprintf("%s leaks %s (%s) logged by %s", rq.Route, kind(h.class), h.form, e.id), h)
 			}
 		}
